@@ -13,13 +13,18 @@
 //!   rtdef4 <ip> | rtdef6 <ip> | rtrmdef4 | rtrmdef6 | rtpush <cidr> <via> <exp ms|-> | rtrm <idx> | rtclear
 //!   r154 <panok> <ldst> <lsrc> <src> <dst> <hop> echo | na .. | ns ..   (med=154: an 802.15.4 data frame with
 //!        an IPHC-compressed IPv6 packet; hardware addresses: extended = 64-bit value, short s = 2^64 + s)
+//!   sethw <hw>                                     Interface::set_hardware_addr (non-unicast: panics by contract)
+//!   txb <n|->                                      device accepts n frames per poll from now on (- = unlimited)
+//!   a trailing `bad4` / `badi` on ip4 / ip6 / r154 corrupts the ICMP / IPv4-header checksum
+//!   case config ck=tx: the device verifies no receive checksum (ChecksumCapabilities Tx for every protocol)
 //!   poll <ms>
-//! Observations: `ok` (addrs), `rx` (frame queued), `ret <0|1>` (send / route ops), and per poll
+//! Observations (every tx line ends with from=<sender hardware address>, which must also be the ARP sender /
+//! NDISC link-layer option): `ok` (addrs), `rx` (frame queued), `ret <0|1>` (send / route ops), and per poll
 //!   tx arpreq <eth dst> <target> | tx arprep <eth dst> <target> | tx ns <eth dst> <target>
 //!   tx ip <eth dst> <ip dst> <tag>     (tag: socket packet tag, -1 echo reply, -2 neighbor advert)
 //!   q <queued packets per socket>      pollat <ms|none>
 use smoltcp::iface::{Config, Interface, Route, SocketHandle, SocketSet};
-use smoltcp::phy::{ChecksumCapabilities, Medium};
+use smoltcp::phy::{Checksum, ChecksumCapabilities, Medium};
 use smoltcp::socket::{icmp, raw, udp};
 use smoltcp::storage::PacketMetadata;
 use smoltcp::time::Instant;
@@ -110,37 +115,54 @@ fn classify154(frame: &[u8]) -> Option<String> {
     let f = Ieee802154Frame::new_checked(frame).expect("154 frame");
     let r = Ieee802154Repr::parse(&f).expect("154 repr");
     let hw = ll154_val(&r.dst_addr.unwrap_or(Ieee802154Address::Absent));
+    let src = ll154_val(&r.src_addr.unwrap_or(Ieee802154Address::Absent));
     let pl = f.payload().expect("154 payload");
     match SixlowpanPacket::dispatch(pl).expect("6lowpan dispatch") {
         SixlowpanPacket::IphcHeader => {}
-        SixlowpanPacket::FragmentHeader => return Some(format!("tx frag {:x}", hw)),
+        SixlowpanPacket::FragmentHeader => return Some(format!("tx frag {:x} from={:x}", hw, src)),
     }
+    classify154_body(&f, &r, hw).map(|l| format!("{} from={}", l.0, match l.1 {
+        Some(x) if x != src => format!("MISMATCH:{:x}/{:x}", src, x),
+        _ => format!("{:x}", src),
+    }))
+}
+
+/// (observation line, NDISC link-layer option if any)
+fn classify154_body(f: &Ieee802154Frame<&[u8]>, r: &Ieee802154Repr, hw: u128) -> Option<(String, Option<u128>)> {
+    let pl = f.payload().expect("154 payload");
     let ip = SixlowpanIphcPacket::new_checked(pl).expect("iphc");
     let ir = SixlowpanIphcRepr::parse(&ip, r.src_addr, r.dst_addr, &[]).expect("iphc repr");
     let dst = IpAddress::Ipv6(ir.dst_addr);
     let body = ip.payload();
+    let line = |s: String| Some((s, None));
     match ir.next_header {
         SixlowpanNextHeader::Compressed => match SixlowpanNhcPacket::dispatch(body).expect("nhc") {
             SixlowpanNhcPacket::UdpHeader => {
                 let u = SixlowpanUdpNhcPacket::new_checked(body).expect("udp nhc");
-                Some(format!("tx ip {:x} {} {}", hw, show_ip(&dst), tag_of(u.payload())))
+                line(format!("tx ip {:x} {} {}", hw, show_ip(&dst), tag_of(u.payload())))
             }
             SixlowpanNhcPacket::ExtHeader => None, // hop-by-hop + MLD report
         },
         SixlowpanNextHeader::Uncompressed(IpProtocol::Icmpv6) => {
             let ic = Icmpv6Packet::new_checked(body).expect("icmpv6");
+            let opt = match NdiscRepr::parse(&ic) {
+                Ok(NdiscRepr::NeighborSolicit { lladdr: Some(l), .. }) | Ok(NdiscRepr::NeighborAdvert { lladdr: Some(l), .. }) => {
+                    Some(l.as_bytes().iter().fold(0u128, |a, b| (a << 8) | *b as u128))
+                }
+                _ => None,
+            };
             match ic.msg_type() {
                 Icmpv6Message::NeighborSolicit => {
-                    Some(format!("tx ns {:x} {}", hw, show_ip(&IpAddress::Ipv6(ic.target_addr()))))
+                    Some((format!("tx ns {:x} {}", hw, show_ip(&IpAddress::Ipv6(ic.target_addr()))), opt))
                 }
-                Icmpv6Message::NeighborAdvert => Some(format!("tx ip {:x} {} -2", hw, show_ip(&dst))),
-                Icmpv6Message::EchoReply => Some(format!("tx ip {:x} {} -1", hw, show_ip(&dst))),
-                Icmpv6Message::EchoRequest => Some(format!("tx ip {:x} {} {}", hw, show_ip(&dst), tag_of(&body[8..]))),
+                Icmpv6Message::NeighborAdvert => Some((format!("tx ip {:x} {} -2", hw, show_ip(&dst)), opt)),
+                Icmpv6Message::EchoReply => line(format!("tx ip {:x} {} -1", hw, show_ip(&dst))),
+                Icmpv6Message::EchoRequest => line(format!("tx ip {:x} {} {}", hw, show_ip(&dst), tag_of(&body[8..]))),
                 Icmpv6Message::MldReport | Icmpv6Message::MldQuery => None,
-                _ => Some(format!("tx ip {:x} {} -9", hw, show_ip(&dst))),
+                _ => line(format!("tx ip {:x} {} -9", hw, show_ip(&dst))),
             }
         }
-        SixlowpanNextHeader::Uncompressed(_) => Some(format!("tx ip {:x} {} {}", hw, show_ip(&dst), tag_of(body))),
+        SixlowpanNextHeader::Uncompressed(_) => line(format!("tx ip {:x} {} {}", hw, show_ip(&dst), tag_of(body))),
     }
 }
 
@@ -170,6 +192,10 @@ struct World {
     raw_q: Vec<i64>,
     tag_sock: BTreeMap<i64, usize>,
     is154: bool,
+    /// frames the device accepts per poll
+    txb: Option<usize>,
+    /// sender of each frame returned by the last `poll`
+    last_from: Vec<String>,
 }
 
 /// One frame the interface put on the wire, reduced to what the property talks about.
@@ -181,6 +207,39 @@ enum Tx {
     Ip { hw: u64, dst: IpAddress, tag: i64 },
     /// IGMP / MLD housekeeping (multicast destination), not part of the compared stream
     Other { hw: u64, dst: IpAddress },
+}
+
+/// sender of a transmitted Ethernet frame; the ARP sender hardware address / NDISC link-layer
+/// option must agree with the Ethernet source
+fn sender_eth(frame: &[u8]) -> String {
+    let f = EthernetFrame::new_checked(frame).expect("tx frame");
+    let src = hw_val(&f.src_addr());
+    let mut inner: Option<u64> = None;
+    match f.ethertype() {
+        EthernetProtocol::Arp => {
+            if let Ok(ArpRepr::EthernetIpv4 { source_hardware_addr, .. }) = ArpPacket::new_checked(f.payload()).and_then(|p| ArpRepr::parse(&p)) {
+                inner = Some(hw_val(&source_hardware_addr));
+            }
+        }
+        EthernetProtocol::Ipv6 => {
+            if let Ok(p) = Ipv6Packet::new_checked(f.payload()) {
+                if p.next_header() == IpProtocol::Icmpv6 {
+                    if let Ok(ic) = Icmpv6Packet::new_checked(p.payload()) {
+                        if matches!(ic.msg_type(), Icmpv6Message::NeighborSolicit | Icmpv6Message::NeighborAdvert) {
+                            if let Ok(NdiscRepr::NeighborSolicit { lladdr: Some(l), .. }) | Ok(NdiscRepr::NeighborAdvert { lladdr: Some(l), .. }) = NdiscRepr::parse(&ic) {
+                                inner = Some(l.as_bytes().iter().fold(0u64, |a, b| (a << 8) | *b as u64));
+                            }
+                        }
+                    }
+                }
+            }
+        }
+        _ => {}
+    }
+    match inner {
+        Some(x) if x != src => format!("MISMATCH:{:x}/{:x}", src, x),
+        _ => format!("{:x}", src),
+    }
 }
 
 fn classify(frame: &[u8]) -> Tx {
@@ -258,6 +317,15 @@ impl World {
         if is154 {
             cfg.pan_id = Some(Ieee802154Pan(OWN_PAN));
         }
+        if c.get("ck") == Some("tx") {
+            let mut ck = ChecksumCapabilities::default();
+            ck.ipv4 = Checksum::Tx;
+            ck.udp = Checksum::Tx;
+            ck.tcp = Checksum::Tx;
+            ck.icmpv4 = Checksum::Tx;
+            ck.icmpv6 = Checksum::Tx;
+            dev.checksum = ck;
+        }
         cfg.random_seed = 0x1234_5678;
         let iface = Interface::new(cfg, &mut dev, Instant::ZERO);
         let qcap = c.get_i("qcap", 4) as usize;
@@ -288,7 +356,7 @@ impl World {
             handles.push((ch, h));
         }
         let n = handles.len();
-        World { dev, iface, sockets, handles, qcap, raw_q: vec![0; n], tag_sock: BTreeMap::new(), is154 }
+        World { dev, iface, sockets, handles, qcap, raw_q: vec![0; n], tag_sock: BTreeMap::new(), is154, txb: None, last_from: vec![] }
     }
 
     fn send(&mut self, k: usize, dst: IpAddress, tag: u32) -> bool {
@@ -390,8 +458,10 @@ impl World {
         let now = Instant::from_millis(ms);
         self.iface.poll(now, &mut self.dev, &mut self.sockets);
         let mut out = vec![];
+        self.last_from.clear();
         for f in self.dev.drain_tx() {
             let tx = classify(&f);
+            self.last_from.push(sender_eth(&f));
             if let Tx::Ip { tag, .. } = &tx {
                 if let Some(k) = self.tag_sock.get(tag) {
                     if self.handles[*k].0 == 'r' {
@@ -406,6 +476,7 @@ impl World {
 
     /// 802.15.4: observation lines directly (no oracle on this medium)
     fn poll154(&mut self, ms: i64) -> Vec<String> {
+        self.dev.tx_budget = self.txb;
         let now = Instant::from_millis(ms);
         self.iface.poll(now, &mut self.dev, &mut self.sockets);
         self.dev.drain_tx().iter().filter_map(|f| classify154(f)).collect()
@@ -462,12 +533,40 @@ impl World {
                 self.iface.routes_mut().update(|v| v.clear());
                 Some(1)
             }
+            "sethw" => {
+                let v = parse_hw128(t[1]);
+                let a = if self.is154 { HardwareAddress::Ieee802154(ll154(v)) } else { HardwareAddress::Ethernet(eth(v as u64)) };
+                self.iface.set_hardware_addr(a);
+                Some(1)
+            }
+            "txb" => {
+                self.txb = if t[1] == "-" { None } else { Some(t[1].parse().unwrap()) };
+                Some(1)
+            }
             x => panic!("bad admin op {}", x),
         }
     }
 }
 
-fn build_rx(t: &[&str]) -> Vec<u8> {
+fn build_rx(t0: &[&str]) -> Vec<u8> {
+    let bad = match t0.last() {
+        Some(&"bad4") => 4,
+        Some(&"badi") => 1,
+        _ => 0,
+    };
+    let t = if bad != 0 { &t0[..t0.len() - 1] } else { t0 };
+    let (mut b, l4) = build_rx_good(t);
+    if bad == 4 {
+        b[l4 + 2] ^= 0x55; // ICMPv4 / ICMPv6 checksum field
+        b[l4 + 3] ^= 0xaa;
+    } else if bad == 1 && t[0] == "ip4" {
+        b[14 + 10] ^= 0x55; // IPv4 header checksum
+    }
+    b
+}
+
+/// the frame and the offset of its ICMP header (0 for ARP)
+fn build_rx_good(t: &[&str]) -> (Vec<u8>, usize) {
     let caps = ChecksumCapabilities::default();
     match t[0] {
         "arp" => {
@@ -489,7 +588,7 @@ fn build_rx(t: &[&str]) -> Vec<u8> {
             f.set_src_addr(eth(sha));
             f.set_ethertype(EthernetProtocol::Arp);
             arp.emit(&mut ArpPacket::new_unchecked(f.payload_mut()));
-            b
+            (b, 0)
         }
         "ip4" => {
             let (edst, esrc, src, dst) = (parse_hw(t[1]), parse_hw(t[2]), v4(t[3]), v4(t[4]));
@@ -503,7 +602,7 @@ fn build_rx(t: &[&str]) -> Vec<u8> {
             let mut p = Ipv4Packet::new_unchecked(f.payload_mut());
             ip.emit(&mut p, &caps);
             icmp.emit(&mut Icmpv4Packet::new_unchecked(p.payload_mut()), &caps);
-            b
+            (b, 14 + 20)
         }
         "ip6" => {
             let (edst, esrc, src, dst, hop) = (parse_hw(t[1]), parse_hw(t[2]), v6(t[3]), v6(t[4]), t[5].parse::<u8>().unwrap());
@@ -533,7 +632,7 @@ fn build_rx(t: &[&str]) -> Vec<u8> {
             let mut p = Ipv6Packet::new_unchecked(f.payload_mut());
             ip.emit(&mut p);
             icmp.emit(&src, &dst, &mut Icmpv6Packet::new_unchecked(p.payload_mut()), &caps);
-            b
+            (b, 14 + 40)
         }
         "r154" => {
             let (panok, ldst, lsrc, src, dst, hop) =
@@ -582,7 +681,8 @@ fn build_rx(t: &[&str]) -> Vec<u8> {
             let (ih, body) = rest.split_at_mut(iphc.buffer_len());
             iphc.emit(&mut SixlowpanIphcPacket::new_unchecked(ih));
             icmp.emit(&src, &dst, &mut Icmpv6Packet::new_unchecked(body), &caps);
-            b
+            let l4 = ieee.buffer_len() + iphc.buffer_len();
+            (b, l4)
         }
         x => panic!("bad rx op {}", x),
     }
@@ -619,9 +719,11 @@ fn run_case(c: &Case, out: &mut dyn Write) {
                     if w.is154 {
                         lines.extend(w.poll154(ms));
                     } else {
-                        for tx in w.poll(ms) {
-                            if let Some(s) = show_tx(&tx) {
-                                lines.push(s);
+                        w.dev.tx_budget = w.txb;
+                        let txs = w.poll(ms);
+                        for (k, tx) in txs.iter().enumerate() {
+                            if let Some(s) = show_tx(tx) {
+                                lines.push(format!("{} from={}", s, w.last_from[k]));
                             }
                         }
                     }
@@ -696,6 +798,9 @@ struct Gen<'a> {
     last_fill: i64,
     tag: u32,
     nsock: usize,
+    /// current / previous own hardware address (sethw)
+    cur_hw: u64,
+    old_hw: Option<u64>,
 }
 
 impl<'a> Gen<'a> {
@@ -762,9 +867,12 @@ impl<'a> Gen<'a> {
     fn edst(&mut self) -> String {
         match self.rng.below(9) {
             0 => "ffffffffffff".into(),
-            1 => "20000000099".into(),   // somebody else's unicast address
+            1 => match self.old_hw {
+                Some(h) if self.rng.chance(2, 3) => format!("{:x}", h), // our address before the last sethw
+                _ => "20000000099".into(),                              // somebody else's unicast address
+            },
             2 => "3333ff000001".into(),
-            _ => format!("{:x}", OWN_HW),
+            _ => format!("{:x}", self.cur_hw),
         }
     }
     fn arp(&mut self, _p: &Plan) -> String {
@@ -886,7 +994,7 @@ impl<'a> Gen<'a> {
         let mut dst = own.clone();
         let mut hop = 255;
         let mut target = src.clone();
-        let mut ldst = format!("{:x}", OWN_154);
+        let mut ldst = format!("{:x}", self.cur_hw);
         let mut panok = 1;
         let kind = self.rng.below(10);
         if (6..9).contains(&kind) {
@@ -968,7 +1076,12 @@ fn gen_case_med(rng: &mut Rng, id: String, tier: &str, allow154: bool) -> Case {
         rng.pick(&["u", "uu", "ui", "ur", "uir", "iru", "uuu", "i", "r"]).to_string()
     };
     let qcap = rng.range(1, 5);
-    let cfg = vec![
+    // 1 script in 6: the device verifies no receive checksum; 1 in 5: device back-pressure (only on
+    // configurations without MLD housekeeping frames, which would share the budget: IPv4-only
+    // Ethernet or 802.15.4)
+    let ck_tx = rng.chance(1, 6);
+    let backpressure = rng.chance(1, 5);
+    let mut cfg = vec![
         ("med".to_string(), if is154 { "154" } else { "eth" }.to_string()),
         ("hw".to_string(), if is154 { format!("{:x}", OWN_154) } else { format!("{:x}", OWN_HW) }),
         ("cap".to_string(), smoltcp::config::IFACE_NEIGHBOR_CACHE_COUNT.to_string()),
@@ -976,6 +1089,16 @@ fn gen_case_med(rng: &mut Rng, id: String, tier: &str, allow154: bool) -> Case {
         ("qcap".to_string(), qcap.to_string()),
         ("socks".to_string(), socks.clone()),
     ];
+    if ck_tx {
+        cfg.push(("ck".to_string(), "tx".to_string()));
+    }
+    let plans_v4 = |rng: &mut Rng| -> Plan {
+        if rng.chance(1, 2) {
+            Plan { addrs: vec![format!("{}/24", ip4(10, 0, 0, 1)), format!("{}/16", ip4(10, 1, 0, 1))], v4: true, v6: false }
+        } else {
+            Plan { addrs: vec![format!("{}/24", ip4(10, 0, 0, 1))], v4: true, v6: false }
+        }
+    };
     let plans154 = |rng: &mut Rng| -> Plan {
         if rng.chance(2, 3) {
             Plan { addrs: vec![format!("{}/64", ip6(LL, 1))], v4: false, v6: true }
@@ -983,10 +1106,13 @@ fn gen_case_med(rng: &mut Rng, id: String, tier: &str, allow154: bool) -> Case {
             Plan { addrs: vec![format!("{}/64", ip6(LL, 1)), format!("{}/64", ip6(GU, 1))], v4: false, v6: true }
         }
     };
-    let mut plan = if is154 { plans154(rng) } else { plans(rng) };
+    let mut plan = if is154 { plans154(rng) } else if backpressure { plans_v4(rng) } else { plans(rng) };
     let mut ops = vec![format!("addrs {}", plan.addrs.join(" "))];
+    if backpressure {
+        ops.push(format!("txb {}", rng.below(3)));
+    }
     let len = if tier == "thorough" { rng.range(8, 120) } else { rng.range(6, 60) };
-    let mut g = Gen { rng, now: 0, recent4: vec![], recent6: vec![], last_req: 0, last_fill: 0, tag: 0, nsock: socks.len() };
+    let mut g = Gen { rng, now: 0, recent4: vec![], recent6: vec![], last_req: 0, last_fill: 0, tag: 0, nsock: socks.len(), cur_hw: if is154 { OWN_154 } else { OWN_HW }, old_hw: None };
     g.now = g.rng.range(0, 2000);
     // usually start with a default route
     if g.rng.chance(2, 3) {
@@ -998,6 +1124,10 @@ fn gen_case_med(rng: &mut Rng, id: String, tier: &str, allow154: bool) -> Case {
         }
     }
     for _ in 0..len {
+        if backpressure && g.rng.chance(1, 12) {
+            ops.push(format!("txb {}", g.rng.pick(&["0", "1", "2", "2", "-"])));
+        }
+        let nops = ops.len();
         match g.rng.below(100) {
             0..=31 => {
                 let mut d = g.dst(&plan);
@@ -1051,8 +1181,37 @@ fn gen_case_med(rng: &mut Rng, id: String, tier: &str, allow154: bool) -> Case {
                 ops.push(a);
             }
             _ => {
-                plan = if is154 { plans154(g.rng) } else { plans(g.rng) };
-                ops.push(format!("addrs {}", plan.addrs.join(" ")));
+                if g.rng.chance(1, 2) {
+                    plan = if is154 { plans154(g.rng) } else if backpressure { plans_v4(g.rng) } else { plans(g.rng) };
+                    ops.push(format!("addrs {}", plan.addrs.join(" ")));
+                } else {
+                    // set_hardware_addr: toggle between two unicast addresses; rarely a multicast one,
+                    // which panics by contract (both sides report PANIC and the script ends there)
+                    let base = if is154 { OWN_154 } else { OWN_HW };
+                    let new = if g.rng.chance(1, 12) {
+                        if is154 { (1u128 << 64) + 0xffff } else { 0x0100_5e00_0001 }
+                    } else if g.cur_hw == base {
+                        (base + 1) as u128
+                    } else {
+                        base as u128
+                    };
+                    ops.push(format!("sethw {:x}", new));
+                    if new >> 64 == 0 && (is154 || (new >> 40) & 1 == 0) {
+                        g.old_hw = Some(g.cur_hw);
+                        g.cur_hw = new as u64;
+                    }
+                }
+            }
+        }
+        // corrupt the ICMP checksum of 1 injected IP frame in 12, the IPv4 header checksum of 1 in 25
+        if ops.len() == nops + 1 {
+            let last = ops.last().unwrap().clone();
+            if last.starts_with("ip4 ") || last.starts_with("ip6 ") || last.starts_with("r154 ") {
+                if g.rng.chance(1, 12) {
+                    *ops.last_mut().unwrap() = format!("{} bad4", last);
+                } else if last.starts_with("ip4 ") && g.rng.chance(1, 25) {
+                    *ops.last_mut().unwrap() = format!("{} badi", last);
+                }
             }
         }
     }
@@ -1094,6 +1253,11 @@ struct Oracle {
     on_wire: BTreeMap<i64, u32>,
     last_discovery: Option<i64>,
     v4_gap: bool,
+    own_hw: u64,
+    /// the interface verifies receive checksums
+    verify: bool,
+    /// frames handed to the device and not yet taken by the interface (back-pressure)
+    in_dev: std::collections::VecDeque<Vec<String>>,
 }
 
 fn bits_of(a: &IpAddress) -> (u128, u32) {
@@ -1144,6 +1308,9 @@ impl Oracle {
             on_wire: BTreeMap::new(),
             last_discovery: None,
             v4_gap: false,
+            own_hw: OWN_HW,
+            verify: true,
+            in_dev: Default::default(),
         }
     }
     fn on_link(&self, a: &IpAddress) -> bool {
@@ -1211,9 +1378,21 @@ impl Oracle {
     fn ingest(&mut self, now: i64) -> Vec<IpAddress> {
         let mut sources = vec![];
         for t in std::mem::take(&mut self.pending_rx) {
-            let t: Vec<&str> = t.iter().map(|s| s.as_str()).collect();
+            let mut t: Vec<&str> = t.iter().map(|s| s.as_str()).collect();
+            // corrupted checksums matter only when the interface verifies them: a bad IPv4 header
+            // checksum makes the frame unparseable, a bad ICMP checksum stops it after the refresh
+            let mut bad4 = false;
+            if t.last() == Some(&"badi") || t.last() == Some(&"bad4") {
+                let b = t.pop().unwrap();
+                if self.verify {
+                    if b == "badi" {
+                        continue;
+                    }
+                    bad4 = true;
+                }
+            }
             let edst = parse_hw(t[1]);
-            if edst != OWN_HW && hw_unicast(edst) {
+            if edst != self.own_hw && hw_unicast(edst) {
                 continue;
             }
             if !hw_unicast(edst) && t[0] != "arp" {
@@ -1241,7 +1420,9 @@ impl Oracle {
                     if self.is_ours(&dst) {
                         self.confirm(&src, esrc, now);
                     }
-                    sources.push(src);
+                    if !bad4 {
+                        sources.push(src);
+                    }
                 }
                 "ip6" => {
                     let (esrc, src, dst, hop) = (parse_hw(t[2]), parse_ip(t[3]), parse_ip(t[4]), t[5]);
@@ -1262,6 +1443,9 @@ impl Oracle {
                     }
                     if !is_mcast(&dst) {
                         self.confirm(&src, esrc, now);
+                    }
+                    if bad4 {
+                        continue;
                     }
                     sources.push(src);
                     if hop != "255" || t[6] == "echo" {
@@ -1404,6 +1588,7 @@ impl Oracle {
 fn oracle_case(c: &Case, fails: &mut Vec<String>, stats: &mut BTreeMap<String, u64>) {
     let mut w = World::new(c);
     let mut o = Oracle::new();
+    o.verify = c.get("ck") != Some("tx");
     let mut now_ms: i64 = 0;
     let mut ops: Vec<String> = c.ops.clone();
     let drain_from = ops.len();
@@ -1436,11 +1621,20 @@ fn oracle_case(c: &Case, fails: &mut Vec<String>, stats: &mut BTreeMap<String, u
                     w.admin(&t);
                     o.addrs = t[1..].iter().map(|s| parse_cidr(s)).collect();
                 }
+                "sethw" => {
+                    w.admin(&t);
+                    o.own_hw = parse_hw(t[1]);
+                }
                 _ => {
                     w.admin(&t);
                 }
             }));
             if res.is_none() {
+                if t[0] == "sethw" && !hw_unicast(parse_hw(t[1])) {
+                    // documented contract of set_hardware_addr: panics for a non-unicast address
+                    *stats.entry("sethw_nonunicast_panics".into()).or_default() += 1;
+                    return;
+                }
                 fail("panic", "the interface panicked".into());
                 return;
             }
@@ -1455,24 +1649,48 @@ fn oracle_case(c: &Case, fails: &mut Vec<String>, stats: &mut BTreeMap<String, u
         if !o.addrs.iter().any(|c| matches!(c, IpCidr::Ipv4(_))) {
             o.v4_gap = true;
         }
+        // device back-pressure: the budget of this poll; frames the interface does not take stay in
+        // the device queue for a later poll
+        w.dev.tx_budget = w.txb;
+        let own = format!("{:x}", o.own_hw);
         for f in std::mem::take(&mut o.pending_rx) {
             let ft: Vec<&str> = f.iter().map(|s| s.as_str()).collect();
+            w.inject(&ft);
+            o.in_dev.push_back(f);
+        }
+        while let Some(f) = o.in_dev.front().cloned() {
+            let before = w.dev.n_rx;
             let res = catch(std::panic::AssertUnwindSafe(|| {
-                w.inject(&ft);
                 w.iface.poll_ingress_single(Instant::from_millis(now), &mut w.dev, &mut w.sockets);
-                w.dev.drain_tx().iter().map(|b| classify(b)).collect::<Vec<Tx>>()
+                w.dev.drain_tx()
             }));
-            let txs = match res {
+            let frames = match res {
                 Some(x) => x,
                 None => {
                     fail("panic", format!("the interface panicked on `{}`", f.join(" ")));
                     return;
                 }
             };
+            if w.dev.n_rx == before {
+                // receive() handed nothing out: no transmit budget left
+                *stats.entry("rx_held_back_by_backpressure".into()).or_default() += 1;
+                if !frames.is_empty() {
+                    fail("frame-sent-without-budget", format!("{} frame(s)", frames.len()));
+                }
+                break;
+            }
+            o.in_dev.pop_front();
+            let txs: Vec<Tx> = frames.iter().map(|b| classify(b)).collect();
+            for b in &frames {
+                if sender_eth(b) != own {
+                    fail("stale-sender-hardware-address", format!("sender {} but the interface address is {}", sender_eth(b), own));
+                }
+            }
             o.pending_rx = vec![f.clone()];
             let sources = o.ingest(now);
             outstanding.extend(o.check(&txs, &sources, &routes, now, stats, &mut fail));
         }
+        let budget_before = w.dev.tx_budget;
         let txs = match catch(std::panic::AssertUnwindSafe(|| w.poll(now))) {
             Some(x) => x,
             None => {
@@ -1480,6 +1698,19 @@ fn oracle_case(c: &Case, fails: &mut Vec<String>, stats: &mut BTreeMap<String, u
                 return;
             }
         };
+        if let Some(b) = budget_before {
+            if txs.len() > b {
+                fail("frame-sent-without-budget", format!("{} frames with budget {}", txs.len(), b));
+            }
+            if b == 0 {
+                *stats.entry("polls_without_tx_budget".into()).or_default() += 1;
+            }
+        }
+        for from in &w.last_from {
+            if *from != own {
+                fail("stale-sender-hardware-address", format!("sender {} but the interface address is {}", from, own));
+            }
+        }
         let mut wanted: Vec<IpAddress> = vec![];
         for (tag, (_, d)) in &o.accepted {
             if o.on_wire.get(tag).copied().unwrap_or(0) == 0 {
@@ -1502,7 +1733,8 @@ fn oracle_case(c: &Case, fails: &mut Vec<String>, stats: &mut BTreeMap<String, u
             }
             if queued > 0 && drain_rounds < 60 {
                 if drain_rounds == 0 {
-                    // make everything routable through an on-link gateway
+                    // lift the back-pressure, make everything routable through an on-link gateway
+                    ops.push("txb -".into());
                     ops.push("rtclear".into());
                     if o.addrs.iter().any(|c| matches!(c, IpCidr::Ipv4(_))) {
                         ops.push(format!("rtdef4 {}", ip4(10, 0, 0, 2)));
@@ -1516,12 +1748,12 @@ fn oracle_case(c: &Case, fails: &mut Vec<String>, stats: &mut BTreeMap<String, u
                     let n = bits_of(target).0 as u64 & 0xff;
                     if *is_arp {
                         if let Some(own) = o.addrs.iter().find(|c| matches!(c, IpCidr::Ipv4(_))) {
-                            ops.push(format!("arp {:x} 2 {} {} {}", OWN_HW, nhw(n, 0), show_ip(target), show_ip(&own.address())));
+                            ops.push(format!("arp {:x} 2 {} {} {}", o.own_hw, nhw(n, 0), show_ip(target), show_ip(&own.address())));
                         }
                     } else if let Some(own) = o.addrs.iter().find(|c| matches!(c, IpCidr::Ipv6(_))) {
                         ops.push(format!(
                             "ip6 {:x} {} {} {} 255 na {} {} 1",
-                            OWN_HW,
+                            o.own_hw,
                             nhw(n, 0),
                             show_ip(target),
                             show_ip(&own.address()),
